@@ -1,17 +1,1712 @@
-//! stub (to be replaced)
+//! Scenario L: the real `varlink::listen` loop (acceptor, `ThreadPool`, workers, `handle`) on the
+//! simulated listener / sockets / clock under the controlled scheduler. The environment task plays
+//! every peer and owns the timeline.
+
+use std::sync::{Arc, Mutex as StdMutex};
+
 use serde_derive::{Deserialize, Serialize};
-use crate::report::RunResult;
-#[derive(Clone, Debug, Serialize, Deserialize)]
-pub struct LCase {}
-pub fn eval_l(_c: &LCase) -> RunResult { RunResult::default() }
-pub fn shrinks(_c: &LCase) -> Vec<LCase> { vec![] }
+use serde_json::{json, Value};
+use shuttle::sync::atomic::{AtomicBool, Ordering};
+
+use crate::cases::{canon_wire_hash, Case};
+use crate::hsim::{Bytes, HCase};
+use crate::model::{model_stream, split_nul, SvcCfg};
+use crate::net::{new_net, ConnOpts, Ev, NetCounters, NetRef, SimListenerImpl};
+use crate::oracle::{check_stream, viol, ObsEnd, StreamObs, Violation};
 use crate::props::{Plan, Space};
-use crate::report::Tier;
-pub const REAL_L: [&str; 0] = [];
-pub const STUB_L: [&str; 0] = [];
-pub fn c01_spaces(_t: Tier) -> Vec<Space> { vec![] }
-pub fn c02_spaces(_t: Tier) -> Vec<Space> { vec![] }
-pub fn c03_spaces(_t: Tier) -> Vec<Space> { vec![] }
-pub fn c06_spaces(_t: Tier) -> Vec<Space> { vec![] }
-pub fn c13_plan(_t: Tier) -> Plan { unimplemented!() }
-pub fn c15_plan(_t: Tier) -> Plan { unimplemented!() }
+use crate::report::{RunResult, Tier};
+use crate::rng::{Fnv, Rng};
+use crate::sched::{run_sim, wait_quiescent, CtlRef, SchedCfg, SimEnd};
+use crate::svc::{build_service, new_rec};
+
+#[derive(Clone, Copy, Debug, Serialize, Deserialize, PartialEq)]
+pub enum Peer {
+    /// reads its replies, half-closes when done
+    Healthy,
+    /// never reads (tiny window): server-side writes block until the environment releases it
+    StopReading,
+    /// a connection-level fault is injected somewhere in its script (reset / close with data in
+    /// flight): only prefix consistency is required of it
+    Faulty,
+}
+
+#[derive(Clone, Debug, Serialize, Deserialize, PartialEq)]
+pub struct LConn {
+    pub stream: Bytes,
+    pub peer: Peer,
+    pub srv_read_plan: Vec<u16>,
+    pub srv_write_plan: Vec<u16>,
+    pub s2c_cap: usize,
+}
+
+impl LConn {
+    pub fn healthy(stream: &[u8]) -> LConn {
+        LConn {
+            stream: Bytes::from(stream),
+            peer: Peer::Healthy,
+            srv_read_plan: vec![],
+            srv_write_plan: vec![],
+            s2c_cap: 1 << 20,
+        }
+    }
+}
+
+#[derive(Clone, Debug, Serialize, Deserialize, PartialEq)]
+pub enum Step {
+    Connect(usize),
+    /// send the next n bytes of the connection's stream
+    Send(usize, usize),
+    HalfClose(usize),
+    Close(usize),
+    Reset(usize),
+    /// wait until nothing can happen without new input or time passing (healthy peers keep reading)
+    Quiesce,
+    /// let simulated time pass (stopping at every deadline on the way)
+    Sleep(u64),
+    SetStop,
+    /// deliver a signal to the acceptor: its `select` returns -1/EINTR
+    Signal,
+    /// give up the processor for k scheduling decisions without waiting for quiescence
+    Yield(u8),
+}
+
+#[derive(Clone, Debug, Serialize, Deserialize, PartialEq)]
+pub struct LCase {
+    pub cfg: SvcCfg,
+    pub initial: usize,
+    pub max: usize,
+    pub idle_timeout: u64,
+    pub stop_flag: bool,
+    pub conns: Vec<LConn>,
+    pub steps: Vec<Step>,
+    pub sched: SchedCfg,
+    /// percent of clock jumps that do not wait for quiescence first (slow-thread mode); 0 = fast-CPU mode
+    pub slow_clock: u8,
+}
+
+impl LCase {
+    pub fn single(cfg: &SvcCfg, conn: LConn, steps: Vec<Step>, sched: SchedCfg) -> LCase {
+        LCase {
+            cfg: cfg.clone(),
+            initial: 1,
+            max: 4,
+            idle_timeout: 0,
+            stop_flag: false,
+            conns: vec![conn],
+            steps,
+            sched,
+            slow_clock: 0,
+        }
+    }
+    pub fn fault_injecting(&self) -> bool {
+        self.steps.iter().any(|s| matches!(s, Step::Signal | Step::Reset(_) | Step::Close(_)))
+            || self
+                .conns
+                .iter()
+                .any(|c| c.peer != Peer::Healthy || c.srv_read_plan.contains(&0) || c.srv_write_plan.contains(&0))
+    }
+}
+
+#[derive(Debug, Clone, Default)]
+pub struct ConnObs {
+    pub sent: Vec<u8>,
+    pub rx: Vec<u8>,
+    pub rx_at_checkpoint: Option<Vec<u8>>,
+    pub sent_at_checkpoint: usize,
+    pub connected: bool,
+    pub accepted: Option<(u64, u64)>,
+    pub srv_first_io: Option<(u64, u64)>,
+    pub srv_closed: Option<(u64, u64)>,
+    pub srv_shutdown: Option<(u64, u64)>,
+    pub client_saw_end: Option<(u64, u64, &'static str)>,
+    pub client_closed: Option<(u64, u64)>,
+    /// the script (not the final release) closed / reset this connection
+    pub script_closed: bool,
+    pub faulted_by_script: bool,
+    pub multi_msg_reads: u64,
+}
+
+#[derive(Default)]
+pub struct LObs {
+    pub conns: Vec<ConnObs>,
+    pub log: Vec<(u64, u64, Ev)>,
+    pub cnt: NetCounters,
+    pub listen_result: Option<(u64, u64, String)>,
+    pub stop_set: Option<(u64, u64)>,
+    pub released_at: Option<(u64, u64)>,
+    pub listener_closed_by_env: bool,
+    pub emergency: bool,
+    pub end_time: u64,
+    pub log_hash: u64,
+    pub rec_calls: Vec<crate::model::Dispatch>,
+    pub rec_upgraded: Vec<u8>,
+    pub finished: bool,
+}
+
+struct Env {
+    net: NetRef,
+    ctl: CtlRef,
+    rng: Rng,
+    slow: u8,
+    reading: Vec<bool>,
+    offsets: Vec<usize>,
+}
+
+impl Env {
+    fn drain_all(&self) -> usize {
+        let mut n = 0;
+        for (i, r) in self.reading.iter().enumerate() {
+            if *r {
+                n += self.net.client_drain(i);
+            }
+        }
+        n
+    }
+    /// quiescence with healthy peers reading whatever arrives
+    fn quiesce(&self) {
+        loop {
+            wait_quiescent(&self.ctl);
+            if self.drain_all() == 0 {
+                break;
+            }
+        }
+    }
+    fn busy_hint(&self) -> bool {
+        false
+    }
+    /// let `ms` of simulated time pass, stopping at every deadline of a blocked `select`
+    fn sleep(&mut self, ms: u64) {
+        let target = self.net.lock().now + ms;
+        loop {
+            let slow = self.slow > 0 && self.rng.below(100) < self.slow as u64;
+            if slow {
+                for _ in 0..self.rng.range(0, 3) {
+                    shuttle::thread::yield_now();
+                }
+                self.drain_all();
+            } else {
+                self.quiesce();
+            }
+            let (now, d) = {
+                let w = self.net.lock();
+                (w.now, w.select_deadline)
+            };
+            if now >= target {
+                break;
+            }
+            match d {
+                Some(d) if d > now && d <= target => self.net.set_clock(d, slow || self.busy_hint()),
+                Some(d) if d <= now => {
+                    // stale deadline: the acceptor has not run since the clock moved
+                    shuttle::thread::yield_now();
+                }
+                _ => {
+                    self.net.set_clock(target, slow);
+                }
+            }
+        }
+        if self.slow == 0 {
+            self.quiesce();
+        }
+    }
+}
+
+pub fn run_l(case: &LCase) -> (SimEnd, crate::sched::SimStats, LObs) {
+    let out: Arc<StdMutex<LObs>> = Arc::new(StdMutex::new(LObs::default()));
+    let out2 = out.clone();
+    let c = case.clone();
+    let (end, stats) = run_sim(&case.sched, move |ctl| {
+        let net = new_net();
+        varlink::verif::register("l", Arc::new(SimListenerImpl { net: net.clone() }));
+        let rec = new_rec();
+        let svc = build_service(&c.cfg, &rec);
+        let stop = if c.stop_flag {
+            Some(Arc::new(AtomicBool::new(false)))
+        } else {
+            None
+        };
+        let lc = varlink::ListenConfig {
+            initial_worker_threads: c.initial,
+            max_worker_threads: c.max,
+            idle_timeout: c.idle_timeout,
+            stop_listening: stop.clone(),
+        };
+        let net2 = net.clone();
+        let listen_task = shuttle::thread::spawn(move || {
+            let r = varlink::listen(svc, "sim:l", &lc);
+            let text = match &r {
+                Ok(()) => "Ok".to_string(),
+                Err(e) => format!("Err({:?})", e.kind()),
+            };
+            let mut w = net2.lock();
+            let s = w.ev(Ev::ListenReturn { result: text.clone() });
+            let now = w.now;
+            w.listen_result = Some((s, now, text));
+            drop(w);
+            net2.cv.notify_all();
+        });
+        let n = c.conns.len();
+        let streams: Vec<Vec<u8>> = c.conns.iter().map(|x| x.stream.to_vec()).collect();
+        let mut env = Env {
+            net: net.clone(),
+            ctl: ctl.clone(),
+            rng: Rng::new(c.sched.seed ^ 0xE17E_17E1),
+            slow: c.slow_clock,
+            reading: vec![false; n],
+            offsets: vec![0; n],
+        };
+        let mut ids: Vec<Option<usize>> = vec![None; n];
+        let mut script_closed = vec![false; n];
+        let mut faulted = vec![false; n];
+        for step in &c.steps {
+            match step {
+                Step::Connect(i) => {
+                    if ids[*i].is_none() {
+                        let lcn = &c.conns[*i];
+                        let id = net.connect(ConnOpts {
+                            srv_read_plan: lcn.srv_read_plan.clone(),
+                            srv_write_plan: lcn.srv_write_plan.clone(),
+                            cli_read_plan: vec![],
+                            s2c_cap: lcn.s2c_cap,
+                        });
+                        // connection ids are dense and in connect order; keep the mapping explicit
+                        ids[*i] = Some(id);
+                        if env.reading.len() <= id {
+                            env.reading.resize(id + 1, false);
+                        }
+                        env.reading[id] = lcn.peer != Peer::StopReading;
+                    }
+                }
+                Step::Send(i, k) => {
+                    if let Some(id) = ids[*i] {
+                        let s = &streams[*i];
+                        let from = env.offsets[*i].min(s.len());
+                        let to = (from + k).min(s.len());
+                        if to > from && net.client_send(id, &s[from..to]) {
+                            env.offsets[*i] = to;
+                        }
+                    }
+                }
+                Step::HalfClose(i) => {
+                    if let Some(id) = ids[*i] {
+                        net.client_half_close(id);
+                        script_closed[*i] = true;
+                    }
+                }
+                Step::Close(i) => {
+                    if let Some(id) = ids[*i] {
+                        net.client_close(id);
+                        env.reading[id] = false;
+                        script_closed[*i] = true;
+                        faulted[*i] = true;
+                    }
+                }
+                Step::Reset(i) => {
+                    if let Some(id) = ids[*i] {
+                        net.client_reset(id);
+                        env.reading[id] = false;
+                        script_closed[*i] = true;
+                        faulted[*i] = true;
+                    }
+                }
+                Step::Quiesce => env.quiesce(),
+                Step::Sleep(ms) => env.sleep(*ms),
+                Step::SetStop => {
+                    if let Some(s) = &stop {
+                        s.store(true, Ordering::SeqCst);
+                        let mut w = net.lock();
+                        let sq = w.ev(Ev::StopFlag);
+                        let now = w.now;
+                        if w.stop_flag_set_at.is_none() {
+                            w.stop_flag_set_at = Some((sq, now));
+                        }
+                    }
+                }
+                Step::Signal => net.signal(),
+                Step::Yield(k) => {
+                    for _ in 0..*k {
+                        shuttle::thread::yield_now();
+                    }
+                    env.drain_all();
+                }
+            }
+        }
+        // ---- checkpoint: everything that can happen has happened; stalled peers are still stalled
+        env.quiesce();
+        {
+            let w = net.lock();
+            let mut o = out2.lock().unwrap();
+            o.conns = vec![ConnObs::default(); n];
+            for i in 0..n {
+                if let Some(id) = ids[i] {
+                    o.conns[i].rx_at_checkpoint = Some(w.conns[id].client_rx.clone());
+                    o.conns[i].sent_at_checkpoint = env.offsets[i];
+                }
+            }
+        }
+        // ---- release: every peer that is still open finishes politely
+        {
+            let mut w = net.lock();
+            let s = w.ev(Ev::Note("release".into()));
+            let now = w.now;
+            out2.lock().unwrap().released_at = Some((s, now));
+        }
+        for i in 0..n {
+            if let Some(id) = ids[i] {
+                env.reading[id] = !faulted[i];
+                if !script_closed[i] {
+                    net.client_half_close(id);
+                }
+            }
+        }
+        env.quiesce();
+        // ---- let the server come to its own end where it is supposed to have one
+        let budget = c.idle_timeout * 1000 * 3 + 3000;
+        let t0 = net.lock().now;
+        loop {
+            env.quiesce();
+            let (done, now, d) = {
+                let w = net.lock();
+                (w.listen_result.is_some(), w.now, w.select_deadline)
+            };
+            if done || now >= t0 + budget {
+                break;
+            }
+            match d {
+                Some(d) => net.set_clock(d.max(now + 1), false),
+                None => break,
+            }
+        }
+        let mut closed_by_env = false;
+        let mut emergency = false;
+        if net.lock().listen_result.is_none() {
+            // no way for it to end by itself (or it failed to): close the listening socket
+            closed_by_env = true;
+            net.close_listener();
+            env.quiesce();
+            // a `select` poll may be pending: let it expire
+            for _ in 0..4 {
+                let (done, now, d) = {
+                    let w = net.lock();
+                    (w.listen_result.is_some(), w.now, w.select_deadline)
+                };
+                if done {
+                    break;
+                }
+                if let Some(d) = d {
+                    net.set_clock(d.max(now + 1), false);
+                }
+                env.quiesce();
+            }
+        }
+        if net.lock().listen_result.is_none() {
+            emergency = true;
+            net.emergency_shutdown();
+            env.quiesce();
+        }
+        let done = net.lock().listen_result.is_some();
+        if done {
+            let _ = listen_task.join();
+        }
+        varlink::verif::unregister("l");
+        // ---- copy the observation out
+        let w = net.lock();
+        let mut o = out2.lock().unwrap();
+        for i in 0..n {
+            let co = &mut o.conns[i];
+            co.sent = streams[i][..env.offsets[i]].to_vec();
+            co.script_closed = script_closed[i];
+            co.faulted_by_script = faulted[i];
+            if let Some(id) = ids[i] {
+                let cn = &w.conns[id];
+                co.connected = true;
+                co.rx = cn.client_rx.clone();
+                co.accepted = cn.accepted;
+                co.srv_first_io = cn.srv_first_io;
+                co.srv_closed = cn.srv_closed;
+                co.srv_shutdown = cn.srv_shutdown;
+                co.client_saw_end = cn.client_saw_end;
+                co.client_closed = cn.client_closed;
+                co.multi_msg_reads = cn.srv_reads_multi_msg;
+            }
+        }
+        o.log = w.log.clone();
+        o.cnt = w.cnt.clone();
+        o.listen_result = w.listen_result.clone();
+        o.stop_set = w.stop_flag_set_at;
+        o.listener_closed_by_env = closed_by_env;
+        o.emergency = emergency;
+        o.end_time = w.now;
+        o.log_hash = w.log_hash();
+        {
+            let r = rec.lock().unwrap_or_else(|e| e.into_inner());
+            o.rec_calls = r.calls.clone();
+            let mut v = Vec::new();
+            for (_, b) in &r.upgraded {
+                v.extend_from_slice(b);
+            }
+            o.rec_upgraded = v;
+        }
+        o.finished = done;
+    });
+    let o = std::mem::take(&mut *out.lock().unwrap_or_else(|e| e.into_inner()));
+    (end, stats, o)
+}
+
+// ---------------------------------------------------------------------------------------------
+// oracles
+
+fn tokens_in(v: &Value, out: &mut Vec<String>) {
+    match v {
+        Value::Object(o) => {
+            for (k, x) in o {
+                if k == "token" || k == "pong" {
+                    if let Some(s) = x.as_str() {
+                        out.push(s.to_string());
+                    }
+                }
+                tokens_in(x, out);
+            }
+        }
+        Value::Array(a) => a.iter().for_each(|x| tokens_in(x, out)),
+        _ => {}
+    }
+}
+
+/// does the same byte stream, fed to the in-memory handler in one piece, satisfy the model?
+fn h_clean(cfg: &SvcCfg, sent: &[u8]) -> bool {
+    let r = crate::cases::eval_h(&HCase::plain(cfg, sent));
+    r.violations.is_empty()
+}
+
+pub struct LVerdict {
+    pub violations: Vec<Violation>,
+    pub inconclusive: bool,
+    pub probes: Vec<(&'static str, u64)>,
+}
+
+pub fn judge_l(case: &LCase, end: &SimEnd, o: &LObs) -> LVerdict {
+    let mut v: Vec<Violation> = Vec::new();
+    let mut probes: Vec<(&'static str, u64)> = Vec::new();
+    let mut inconclusive = false;
+    match end {
+        SimEnd::Completed => {}
+        SimEnd::Panic(t) => {
+            v.push(viol(
+                "C06",
+                "panic",
+                format!("a server thread panicked: {}", t.chars().take(300).collect::<String>()),
+            ));
+            return LVerdict { violations: v, inconclusive: false, probes };
+        }
+        SimEnd::Deadlock(t) => {
+            v.push(viol(
+                "C15",
+                "deadlock",
+                format!(
+                    "the server did not come to an end even after every peer closed and the listener was shut: {}",
+                    t.chars().take(300).collect::<String>()
+                ),
+            ));
+            return LVerdict { violations: v, inconclusive: false, probes };
+        }
+        SimEnd::StepBound => {
+            return LVerdict { violations: v, inconclusive: true, probes };
+        }
+    }
+    if o.conns.len() != case.conns.len() {
+        return LVerdict { violations: v, inconclusive: true, probes };
+    }
+    let multi = case.conns.len() > 1;
+    // connections a worker was busy with when the peers were released
+    let in_service_at_release = o
+        .conns
+        .iter()
+        .filter(|c| {
+            c.srv_first_io.is_some()
+                && match (c.srv_closed, o.released_at) {
+                    (Some((s, _)), Some((r, _))) => s > r,
+                    (None, _) => true,
+                    _ => false,
+                }
+        })
+        .count();
+    let listen_ret_seq = o.listen_result.as_ref().map(|x| x.0);
+    let upgraders = o
+        .conns
+        .iter()
+        .filter(|c| {
+            model_stream(&case.cfg, &c.sent)
+                .alts
+                .iter()
+                .any(|a| matches!(a.end, crate::model::End::Upgraded { .. }))
+        })
+        .count();
+    // ---- per connection: replies vs model of its own traffic
+    for (i, (lc, co)) in case.conns.iter().zip(o.conns.iter()).enumerate() {
+        if !co.connected {
+            continue;
+        }
+        let faulted = co.faulted_by_script;
+        // token isolation, always strict
+        let (frames, _) = split_nul(&co.rx);
+        for f in &frames {
+            if let Ok(val) = serde_json::from_slice::<Value>(f) {
+                let mut toks = Vec::new();
+                tokens_in(&val, &mut toks);
+                for t in toks {
+                    if let Some(rest) = t.strip_prefix('c') {
+                        if let Some((num, _)) = rest.split_once('-') {
+                            if let Ok(k) = num.parse::<usize>() {
+                                if k != i {
+                                    v.push(viol(
+                                        "C13",
+                                        "foreign-token",
+                                        format!("connection {} received a reply carrying token {:?} of connection {}", i, t, k),
+                                    ));
+                                }
+                            }
+                        }
+                    }
+                }
+            }
+        }
+        if co.accepted.is_none() {
+            // never accepted: a violation only if the server was still accepting when the peers were released
+            let still_accepting = match (listen_ret_seq, o.released_at) {
+                (Some(r), Some(rel)) => r > rel.0,
+                (None, _) => true,
+                _ => false,
+            };
+            let stop_before_release = match (o.stop_set, o.released_at) {
+                (Some(s), Some(rel)) => s.0 < rel.0,
+                _ => false,
+            };
+            if still_accepting && !stop_before_release && !o.emergency {
+                v.push(viol(
+                    if multi { "C14" } else { "C01" },
+                    "never-accepted",
+                    format!("connection {} was never accepted although the server was still accepting", i),
+                ));
+            }
+            continue;
+        }
+        let model = model_stream(&case.cfg, &co.sent);
+        // how did the connection end from the client's point of view?
+        // the server ended the connection by itself if it shut the stream down, or dropped it before
+        // the client closed its side
+        let server_ended_first = co.srv_shutdown.is_some()
+            || match (co.srv_closed, co.client_closed) {
+                (Some((s, _)), Some((c, _))) => s < c,
+                (Some(_), None) => true,
+                _ => false,
+            };
+        let end = if server_ended_first {
+            ObsEnd::Closed {
+                kind: if co.srv_shutdown.is_some() { "server shutdown" } else { "server dropped the stream" }.to_string(),
+            }
+        } else {
+            ObsEnd::Open { tail: None, iface: None }
+        };
+        let single_attr = !multi;
+        let obs = StreamObs {
+            wire: &co.rx,
+            end,
+            panicked: None,
+            upgraded_record: if upgraders == 1
+                && model.alts.iter().any(|a| matches!(a.end, crate::model::End::Upgraded { .. }))
+                && !faulted
+            {
+                Some(o.rec_upgraded.clone())
+            } else {
+                None
+            },
+            dispatches: if single_attr && !faulted { Some(o.rec_calls.clone()) } else { None },
+            socket: true,
+            faulted: faulted || lc.peer == Peer::Faulty,
+            upgrade_mode: case.cfg.upgrade_mode,
+        };
+        let verdict = check_stream(&case.cfg, &model, &obs);
+        inconclusive |= verdict.inconclusive;
+        if !verdict.violations.is_empty() {
+            // attribution: if the in-memory handler gets the same stream right, the discrepancy comes
+            // from the socket path (segmentation: C02) or from concurrency (C13)
+            let h_ok = h_clean(&case.cfg, &co.sent);
+            for mut x in verdict.violations {
+                if h_ok && matches!(x.prop, "C01" | "C03" | "C04" | "C05") {
+                    let was = x.prop;
+                    x.prop = if multi { "C13" } else if x.clause.starts_with("upgrade") { "C02" } else { was };
+                    if multi {
+                        x.detail = format!("connection {} (alone and in memory the same stream is served correctly; {}): {}", i, was, x.detail);
+                    }
+                } else if multi {
+                    x.detail = format!("connection {}: {}", i, x.detail);
+                }
+                v.push(x);
+            }
+        }
+        // liveness at the checkpoint, while misbehaving peers were still stalled
+        if lc.peer == Peer::Healthy && !faulted {
+            if let Some(rx) = &co.rx_at_checkpoint {
+                let sent = &co.sent[..co.sent_at_checkpoint.min(co.sent.len())];
+                let m2 = model_stream(&case.cfg, sent);
+                let obs2 = StreamObs {
+                    wire: rx,
+                    end: ObsEnd::Open { tail: None, iface: None },
+                    panicked: None,
+                    upgraded_record: None,
+                    dispatches: None,
+                    socket: true,
+                    faulted: false,
+                    upgrade_mode: case.cfg.upgrade_mode,
+                };
+                // a connection the server ended by then is judged by the final check above
+                let ended_by_then = server_ended_first;
+                if !ended_by_then {
+                    let vd = check_stream(&case.cfg, &m2, &obs2);
+                    for x in vd.violations {
+                        if x.clause == "unanswered-while-open" {
+                            let stranded = co.srv_first_io.is_none();
+                            if stranded && in_service_at_release >= case.max {
+                                // every slot is taken: waiting is what the bound demands
+                                continue;
+                            }
+                            v.push(viol(
+                                if stranded { "C14" } else if multi { "C13" } else { "C01" },
+                                if stranded { "connection-stranded" } else { "not-served-while-others-stalled" },
+                                format!(
+                                    "connection {} had sent {} bytes of complete requests and was {} but at quiescence (other peers still stalled) {}",
+                                    i,
+                                    sent.len(),
+                                    if co.accepted.is_some() { "accepted" } else { "waiting" },
+                                    x.detail
+                                ),
+                            ));
+                        }
+                    }
+                }
+            }
+        }
+        if co.multi_msg_reads > 0 {
+            probes.push(("one_server_read_returned_ge_2_requests", 1));
+        }
+    }
+    // ---- C15: the life of the listen loop
+    judge_c15(case, o, &mut v, &mut probes);
+    LVerdict { violations: v, inconclusive, probes }
+}
+
+fn judge_c15(case: &LCase, o: &LObs, v: &mut Vec<Violation>, probes: &mut Vec<(&'static str, u64)>) {
+    let res = match &o.listen_result {
+        Some(r) => r.clone(),
+        None => {
+            v.push(viol(
+                "C15",
+                "listen-does-not-return",
+                "listen() had not returned after every peer closed, the listener was shut and every blocking call was failed".into(),
+            ));
+            return;
+        }
+    };
+    let (ret_seq, ret_t, text) = (res.0, res.1, res.2.as_str());
+    let fast = case.slow_clock == 0;
+    let injected_signal = case.steps.iter().any(|s| matches!(s, Step::Signal));
+    // decision time: last select timeout before the return
+    let decision = o
+        .log
+        .iter()
+        .rev()
+        .find(|(s, _, e)| *s < ret_seq && matches!(e, Ev::SelectReturn { what: "timeout", .. }))
+        .map(|(s, t, _)| (*s, *t));
+    let last_accept = o
+        .log
+        .iter()
+        .rev()
+        .find(|(s, _, e)| *s < ret_seq && matches!(e, Ev::AcceptReturn { c: Some(_) }))
+        .map(|(_, t, _)| *t);
+    let natural = !o.listener_closed_by_env && !o.emergency;
+    match text {
+        "Err(Timeout)" => {
+            probes.push(("listen_returned_timeout", 1));
+            if case.idle_timeout == 0 {
+                v.push(viol("C15", "timeout-without-idle-timeout", "listen() returned Timeout although no idle timeout is configured".into()));
+            } else if let Some((dseq, dt)) = decision {
+                let since = last_accept.unwrap_or(0);
+                if dt < since + case.idle_timeout * 1000 {
+                    v.push(viol(
+                        "C15",
+                        "timeout-early",
+                        format!(
+                            "listen() decided Timeout at t={} ms, only {} ms after the last accepted connection (t={} ms); idle_timeout is {} s",
+                            dt,
+                            dt - since,
+                            since,
+                            case.idle_timeout
+                        ),
+                    ));
+                }
+                if fast {
+                    // nobody may be in service at the decision
+                    for (i, c) in o.conns.iter().enumerate() {
+                        if let Some((aseq, _)) = c.accepted {
+                            let open_at_decision = aseq < dseq && c.srv_closed.map_or(true, |(cs, _)| cs > dseq);
+                            if open_at_decision {
+                                v.push(viol(
+                                    "C15",
+                                    "timeout-while-serving",
+                                    format!("listen() decided Timeout at t={} ms while connection {} was still being served", dt, i),
+                                ));
+                            }
+                        }
+                    }
+                }
+                // a timeout poll that returned after the stop flag was set must see the flag
+                if let Some((sseq, st)) = o.stop_set {
+                    if dseq > sseq {
+                        v.push(viol(
+                            "C15",
+                            "timeout-instead-of-stop",
+                            format!("stop flag set at t={} ms, a later poll (t={} ms) still ended in Timeout instead of Ok", st, dt),
+                        ));
+                    }
+                }
+            }
+        }
+        "Ok" => {
+            probes.push(("listen_returned_ok", 1));
+            if o.stop_set.is_none() {
+                v.push(viol(
+                    "C15",
+                    "ok-without-stop",
+                    "listen() returned Ok although the stop flag was never set".into(),
+                ));
+            }
+        }
+        other => {
+            // Err(Io) after the environment closed the listening socket is the expected terminator
+            if natural {
+                v.push(viol("C15", "unexpected-result", format!("listen() returned {}", other)));
+            }
+        }
+    }
+    // T3: stop flag honoured
+    if let Some((_sseq, st)) = o.stop_set {
+        if text != "Ok" && text != "Err(Timeout)" {
+            v.push(viol(
+                "C15",
+                "stop-ignored",
+                format!(
+                    "stop flag set at t={} ms; listen() only ended with {} after the environment shut the listener (t={} ms){}",
+                    st,
+                    text,
+                    ret_t,
+                    if injected_signal { " [a signal had interrupted select]" } else { "" }
+                ),
+            ));
+        }
+        let mut enter_t: Option<u64> = None;
+        for (_, t, e) in &o.log {
+            match e {
+                Ev::AcceptEnter => enter_t = Some(*t),
+                Ev::AcceptReturn { c: Some(c) } => {
+                    if let Some(et) = enter_t {
+                        if et > st + 1000 {
+                            v.push(viol(
+                                "C15",
+                                "accept-long-after-stop",
+                                format!(
+                                    "stop flag set at t={} ms, yet an accept started at t={} ms still took connection {}",
+                                    st, et, c
+                                ),
+                            ));
+                            break;
+                        }
+                    }
+                }
+                _ => {}
+            }
+        }
+    } else if case.idle_timeout > 0 && text != "Err(Timeout)" {
+        v.push(viol(
+            "C15",
+            "idle-timeout-ignored",
+            format!(
+                "idle_timeout={} s and every connection closed, but listen() only ended with {} after the environment shut the listener{}",
+                case.idle_timeout,
+                text,
+                if injected_signal { " [a signal had interrupted select]" } else { "" }
+            ),
+        ));
+    }
+    // T2: everything accepted was served to completion before the return
+    for (i, c) in o.conns.iter().enumerate() {
+        if let Some((aseq, _)) = c.accepted {
+            if aseq < ret_seq {
+                match c.srv_closed {
+                    Some((cs, _)) if cs < ret_seq => {}
+                    _ => v.push(viol(
+                        "C15",
+                        "returned-before-drained",
+                        format!("listen() returned ({}) while accepted connection {} was still open on the server side", text, i),
+                    )),
+                }
+            }
+        }
+    }
+    // T4: promptness (fast-CPU mode: draining takes no simulated time)
+    if fast && natural && !injected_signal {
+        let all_served = o
+            .conns
+            .iter()
+            .filter(|c| c.accepted.is_some())
+            .filter_map(|c| c.srv_closed.map(|x| x.1))
+            .max()
+            .unwrap_or(0);
+        let base = match text {
+            "Ok" => o.stop_set.map(|x| x.1 + 100),
+            "Err(Timeout)" => decision.map(|x| x.1),
+            _ => None,
+        };
+        if let Some(b) = base {
+            let due = b.max(all_served);
+            if ret_t > due + 100 {
+                v.push(viol(
+                    "C15",
+                    "not-prompt",
+                    format!("listen() returned {} at t={} ms; it could have at t={} ms", text, ret_t, due),
+                ));
+            }
+        }
+    }
+}
+
+fn l_faults(c: &NetCounters) -> Vec<(&'static str, u64)> {
+    vec![
+        ("server_short_read", c.srv_short_reads),
+        ("server_read_eintr", c.srv_read_eintr),
+        ("server_short_write", c.srv_short_writes),
+        ("server_write_eintr", c.srv_write_eintr),
+        ("server_write_blocked_on_full_window", c.srv_write_blocked),
+        ("server_write_epipe_or_reset", c.srv_write_epipe),
+        ("server_read_reset", c.srv_read_reset),
+        ("select_eintr", c.select_eintr),
+        ("clock_jump_while_threads_runnable", c.clock_jumps_while_busy),
+    ]
+}
+
+pub fn eval_l(case: &LCase) -> RunResult {
+    let (end, stats, o) = run_l(case);
+    let vd = judge_l(case, &end, &o);
+    let mut violations = vd.violations;
+    // identical clause reported for several connections: keep the first of each (prop, clause)
+    let mut seen: Vec<(&'static str, String)> = Vec::new();
+    violations.retain(|x| {
+        let k = (x.prop, x.clause.clone());
+        if seen.contains(&k) {
+            false
+        } else {
+            seen.push(k);
+            true
+        }
+    });
+    let mut sig = Fnv::new();
+    let mut nosched = case.clone();
+    nosched.sched = SchedCfg::uniform(0);
+    sig.str(&serde_json::to_string(&nosched).unwrap());
+    sig.u64(stats.switch_hash);
+    let mut lh = Fnv::new();
+    lh.u64(o.log_hash);
+    for c in &o.conns {
+        canon_wire_hash(&mut lh, &c.rx);
+    }
+    lh.str(&format!("{:?}", o.listen_result));
+    let mut probes = vd.probes;
+    probes.push(("select_timeouts", o.cnt.select_timeouts));
+    probes.push(("acceptor_blocked_in_accept", o.cnt.accept_blocked));
+    probes.push(("environment_had_to_close_listener", o.listener_closed_by_env as u64));
+    probes.push(("emergency_shutdown", o.emergency as u64));
+    let concurrent = {
+        // two connections in service at the same time?
+        let mut k = 0;
+        for a in &o.conns {
+            for b in &o.conns {
+                if let (Some(x), Some(y), Some(xe)) = (a.accepted, b.accepted, a.srv_closed) {
+                    if x.0 < y.0 && y.0 < xe.0 {
+                        k += 1;
+                    }
+                }
+            }
+        }
+        k
+    };
+    probes.push(("two_connections_in_service_at_once", (concurrent > 0) as u64));
+    RunResult {
+        violations,
+        sig: sig.0,
+        nontrivial: stats.switches >= 6,
+        faults: l_faults(&o.cnt),
+        probes,
+        sim_ms: o.end_time,
+        steps: stats.steps,
+        log_hash: lh.0,
+        inconclusive: vd.inconclusive || matches!(end, SimEnd::StepBound),
+        sample: Some(json!({
+            "scenario": "L",
+            "listen": {"initial": case.initial, "max": case.max, "idle_timeout_s": case.idle_timeout, "stop_flag": case.stop_flag, "slow_clock_pct": case.slow_clock},
+            "connections": case.conns.iter().zip(o.conns.iter()).map(|(c, co)| json!({
+                "peer": format!("{:?}", c.peer),
+                "sent": String::from_utf8_lossy(&co.sent[..co.sent.len().min(200)]),
+                "received": String::from_utf8_lossy(&co.rx[..co.rx.len().min(200)]),
+                "server_read_plan": c.srv_read_plan.iter().take(8).collect::<Vec<_>>(),
+            })).collect::<Vec<_>>(),
+            "steps": format!("{:?}", &case.steps[..case.steps.len().min(24)]),
+            "sched_mode": format!("{:?}", case.sched.mode),
+            "scheduler_steps": stats.steps,
+            "context_switches": stats.switches,
+            "tasks": stats.tasks,
+            "simulated_ms": o.end_time,
+            "listen_result": o.listen_result.as_ref().map(|x| x.2.clone()),
+        })),
+    }
+}
+
+// ---------------------------------------------------------------------------------------------
+// shrinking and schedule pinning
+
+pub fn shrinks(c: &LCase) -> Vec<LCase> {
+    let mut v = Vec::new();
+    // drop a whole connection (and its steps)
+    if c.conns.len() > 1 {
+        for d in 0..c.conns.len() {
+            let mut n = c.clone();
+            n.conns.remove(d);
+            n.steps = c
+                .steps
+                .iter()
+                .filter_map(|s| {
+                    let fix = |i: usize| if i > d { Some(i - 1) } else if i == d { None } else { Some(i) };
+                    Some(match s {
+                        Step::Connect(i) => Step::Connect(fix(*i)?),
+                        Step::Send(i, k) => Step::Send(fix(*i)?, *k),
+                        Step::HalfClose(i) => Step::HalfClose(fix(*i)?),
+                        Step::Close(i) => Step::Close(fix(*i)?),
+                        Step::Reset(i) => Step::Reset(fix(*i)?),
+                        o => o.clone(),
+                    })
+                })
+                .collect();
+            v.push(n);
+        }
+    }
+    for i in 0..c.steps.len() {
+        if matches!(c.steps[i], Step::Connect(_)) {
+            continue;
+        }
+        let mut n = c.clone();
+        n.steps.remove(i);
+        v.push(n);
+    }
+    for (i, cn) in c.conns.iter().enumerate() {
+        if !cn.srv_read_plan.is_empty() {
+            let mut n = c.clone();
+            n.conns[i].srv_read_plan.clear();
+            v.push(n);
+        }
+        if !cn.srv_write_plan.is_empty() {
+            let mut n = c.clone();
+            n.conns[i].srv_write_plan.clear();
+            v.push(n);
+        }
+        // drop one message from the stream
+        let s = cn.stream.to_vec();
+        let (msgs, tail) = split_nul(&s);
+        if msgs.len() > 1 {
+            for d in 0..msgs.len() {
+                let mut ns = Vec::new();
+                for (k, m) in msgs.iter().enumerate() {
+                    if k != d {
+                        ns.extend_from_slice(m);
+                        ns.push(0);
+                    }
+                }
+                ns.extend_from_slice(tail);
+                let mut n = c.clone();
+                n.conns[i].stream = Bytes::from(&ns);
+                v.push(n);
+            }
+        }
+    }
+    if c.slow_clock > 0 {
+        let mut n = c.clone();
+        n.slow_clock = 0;
+        v.push(n);
+    }
+    if !matches!(c.sched.mode, crate::sched::Mode::Uniform) && c.sched.replay.is_none() {
+        let mut n = c.clone();
+        n.sched.mode = crate::sched::Mode::Uniform;
+        v.push(n);
+    }
+    v
+}
+
+pub fn pin_schedule(c: &LCase, prop: &str, clause: &str) -> LCase {
+    let (_, stats, _) = run_l(c);
+    let mut pinned = c.clone();
+    pinned.sched.replay = Some(stats.choices.clone());
+    let fails = |cand: &LCase| eval_l(cand).violations.iter().any(|v| v.prop == prop && v.clause == clause);
+    if !fails(&pinned) {
+        return c.clone();
+    }
+    let short = crate::sched::shrink_choices(
+        &stats.choices,
+        |ch| {
+            let mut n = pinned.clone();
+            n.sched.replay = Some(ch.to_vec());
+            fails(&n)
+        },
+        40,
+    );
+    pinned.sched.replay = Some(short);
+    pinned
+}
+
+// ---------------------------------------------------------------------------------------------
+// exploration spaces
+
+pub const REAL_L: [&str; 5] = [
+    "varlink::listen (accept loop, idle-timeout / stop-flag logic, worker closure)",
+    "varlink::server::ThreadPool and Worker",
+    "varlink::Listener::accept (real timeout arithmetic, EINTR loop and FD_ISSET test around the select seam)",
+    "VarlinkService::handle and everything below it, shared by all workers",
+    "std BufReader / read_until / write_all retry loops over the simulated socket",
+];
+pub const STUB_L: [&str; 5] = [
+    "kernel sockets (simulated byte pipes with windows, short reads/writes, EINTR, EOF, reset)",
+    "select(2) (shim with the kernel's contract: ready / timeout / -1+EINTR, remaining time written back)",
+    "Listener::new address parsing, bind and unlink (bypassed by the sim: address)",
+    "std threads and sync primitives (shuttle coroutines; PlanScheduler decides every switch)",
+    "the wall clock (simulated milliseconds moved only by the environment task)",
+];
+
+fn token_stream(cfg: &SvcCfg, kinds: &[crate::alphabet::Kind], conn: usize) -> Vec<u8> {
+    crate::alphabet::stream_of(cfg, kinds, &format!("c{}", conn))
+}
+
+fn msg_bounds(stream: &[u8]) -> Vec<usize> {
+    let (msgs, _) = split_nul(stream);
+    let mut v = Vec::new();
+    let mut pos = 0;
+    for m in msgs {
+        pos += m.len() + 1;
+        v.push(pos);
+    }
+    v
+}
+
+/// send `stream` in batches of `depth` whole requests, waiting for quiescence between batches
+fn batch_steps(conn: usize, stream: &[u8], depth: usize, wait: bool) -> Vec<Step> {
+    let b = msg_bounds(stream);
+    let mut steps = vec![Step::Connect(conn)];
+    let mut last = 0usize;
+    for (k, e) in b.iter().enumerate() {
+        if (k + 1) % depth == 0 || k + 1 == b.len() {
+            steps.push(Step::Send(conn, e - last));
+            last = *e;
+            if wait {
+                steps.push(Step::Quiesce);
+            }
+        }
+    }
+    if last < stream.len() {
+        steps.push(Step::Send(conn, stream.len() - last));
+    }
+    steps
+}
+
+fn cut_steps(conn: usize, stream_len: usize, cuts: &[usize], wait: &[bool]) -> Vec<Step> {
+    let mut steps = vec![Step::Connect(conn)];
+    let mut last = 0usize;
+    let mut k = 0usize;
+    for c in cuts.iter().chain(std::iter::once(&stream_len)) {
+        if *c > last && *c <= stream_len {
+            steps.push(Step::Send(conn, c - last));
+            last = *c;
+            if wait.get(k).copied().unwrap_or(true) {
+                steps.push(Step::Quiesce);
+            } else {
+                steps.push(Step::Yield(1));
+            }
+            k += 1;
+        }
+    }
+    steps
+}
+
+pub fn c01_spaces(tier: Tier) -> Vec<Space> {
+    let cfg = SvcCfg::basic();
+    let alpha = crate::alphabet::reduced();
+    let a = alpha.len() as u64;
+    let maxlen: u32 = if tier == Tier::Quick { 2 } else { 3 };
+    let mut size = 0u64;
+    for len in 1..=maxlen {
+        size += a.pow(len) * len as u64;
+    }
+    let seeds: u64 = if tier == Tier::Quick { 2 } else { 4 };
+    let mut spaces = Vec::new();
+    {
+        let (cfg, alpha) = (cfg.clone(), alpha.clone());
+        spaces.push(Space {
+            name: "L.seq.reduced",
+            size: size * seeds,
+            exhaustive: false,
+            gen: Box::new(move |idx, seed| {
+                let mut rng = Rng::new(seed);
+                let mut i = idx / seeds;
+                let mut len = 1u32;
+                loop {
+                    let block = a.pow(len) * len as u64;
+                    if i < block {
+                        break;
+                    }
+                    i -= block;
+                    len += 1;
+                }
+                let depth = (i % len as u64) as usize + 1;
+                let mut code = i / len as u64;
+                let mut kinds = Vec::new();
+                for _ in 0..len {
+                    kinds.push(alpha[(code % a) as usize]);
+                    code /= a;
+                }
+                let s = token_stream(&cfg, &kinds, 0);
+                let steps = batch_steps(0, &s, depth, true);
+                Case::L(LCase::single(&cfg, LConn::healthy(&s), steps, SchedCfg::random(&mut rng, 1)))
+            }),
+        });
+    }
+    {
+        let n = if tier == Tier::Quick { 1_500 } else { 60_000 };
+        let full = crate::alphabet::full();
+        spaces.push(Space {
+            name: "L.seq.random",
+            size: n,
+            exhaustive: false,
+            gen: Box::new(move |_idx, seed| {
+                let mut rng = Rng::new(seed);
+                let len = rng.range(3, 16) as usize;
+                let kinds: Vec<_> = (0..len).map(|_| *rng.pick(&full)).collect();
+                let s = token_stream(&cfg, &kinds, 0);
+                let depth = rng.range(1, len as u64) as usize;
+                let steps = batch_steps(0, &s, depth, rng.chance(2, 3));
+                let mut conn = LConn::healthy(&s);
+                if rng.chance(1, 2) {
+                    conn.srv_read_plan = (0..rng.range(1, 30)).map(|_| rng.range(1, 90) as u16).collect();
+                }
+                if rng.chance(1, 3) {
+                    conn.srv_write_plan = (0..rng.range(1, 30)).map(|_| rng.range(1, 60) as u16).collect();
+                }
+                let mut c = LCase::single(&cfg, conn, steps, SchedCfg::random(&mut rng, 1));
+                c.initial = rng.range(1, 2) as usize;
+                Case::L(c)
+            }),
+        });
+    }
+    spaces
+}
+
+pub fn c02_spaces(tier: Tier) -> Vec<Space> {
+    let mut streams = crate::props::c02_streams(Tier::Quick);
+    // keep the corpus small on the socket path: the mixed / partial / upgrade streams and a few pairs
+    let keep: Vec<(SvcCfg, Vec<u8>)> = streams
+        .drain(..)
+        .enumerate()
+        .filter(|(i, (c, s))| c.upgrade_mode != SvcCfg::basic().upgrade_mode || *i % 7 == 0 || s.len() > 300 || String::from_utf8_lossy(s).contains("Upgrade"))
+        .map(|(_, x)| x)
+        .collect();
+    let mut spaces = Vec::new();
+    // every single cut point, delivered with and without waiting for quiescence at the cut
+    {
+        let st: Vec<(SvcCfg, Vec<u8>)> = if tier == Tier::Quick {
+            keep.iter().filter(|(_, s)| s.len() <= 400).take(14).cloned().collect()
+        } else {
+            keep.clone()
+        };
+        let mut offsets = vec![0u64];
+        for (_, s) in &st {
+            offsets.push(offsets.last().unwrap() + (s.len() as u64).saturating_sub(1) * 2);
+        }
+        let total = *offsets.last().unwrap();
+        spaces.push(Space {
+            name: "L.cut.single",
+            size: total,
+            exhaustive: false,
+            gen: Box::new(move |idx, seed| {
+                let mut rng = Rng::new(seed);
+                let k = offsets.partition_point(|o| *o <= idx) - 1;
+                let (cfg, s) = &st[k];
+                let local = idx - offsets[k];
+                let cut = (local / 2) as usize + 1;
+                let wait = local % 2 == 0;
+                let steps = cut_steps(0, s.len(), &[cut], &[wait, true]);
+                Case::L(LCase::single(cfg, LConn::healthy(s), steps, SchedCfg::random(&mut rng, 1)))
+            }),
+        });
+    }
+    // seeded random k-cuts, random waits, server-side short reads
+    {
+        let mut st = keep.clone();
+        if tier == Tier::Thorough {
+            st.extend(crate::props::c02_big_streams());
+        }
+        let n = if tier == Tier::Quick { 2_500 } else { 80_000 };
+        spaces.push(Space {
+            name: "L.cut.random",
+            size: n,
+            exhaustive: false,
+            gen: Box::new(move |_idx, seed| {
+                let mut rng = Rng::new(seed);
+                let (cfg, s) = &st[rng.usize(st.len())];
+                let k = rng.range(1, 10) as usize;
+                let mut cuts: Vec<usize> = (0..k).map(|_| rng.usize(s.len().max(1))).collect();
+                cuts.sort();
+                cuts.dedup();
+                cuts.retain(|x| *x > 0);
+                let wait: Vec<bool> = (0..cuts.len() + 1).map(|_| rng.chance(1, 2)).collect();
+                let steps = cut_steps(0, s.len(), &cuts, &wait);
+                let mut conn = LConn::healthy(s);
+                if rng.chance(1, 2) {
+                    conn.srv_read_plan = (0..rng.range(1, 40)).map(|_| rng.range(1, 50) as u16).collect();
+                }
+                Case::L(LCase::single(cfg, conn, steps, SchedCfg::random(&mut rng, 1)))
+            }),
+        });
+    }
+    spaces
+}
+
+pub fn c03_spaces(tier: Tier) -> Vec<Space> {
+    // several workers share the one service object while routing among confusable names
+    let n = if tier == Tier::Quick { 600 } else { 20_000 };
+    vec![Space {
+        name: "L.route.shared-service",
+        size: n,
+        exhaustive: false,
+        gen: Box::new(move |_idx, seed| {
+            let mut rng = Rng::new(seed);
+            let mut cfg = SvcCfg::basic();
+            let mut names: Vec<String> = Vec::new();
+            for _ in 0..rng.range(1, 4) {
+                let nme = rng.pick(crate::props::NAME_POOL).to_string();
+                if !names.contains(&nme) {
+                    names.push(nme);
+                }
+            }
+            cfg.scripted = names.clone();
+            let nconn = rng.range(1, 3) as usize;
+            let mut conns = Vec::new();
+            let mut steps = Vec::new();
+            for c in 0..nconn {
+                let mut s = Vec::new();
+                for i in 0..rng.range(1, 5) {
+                    let base = rng.pick(crate::props::NAME_POOL).to_string();
+                    let m = match rng.below(5) {
+                        0 => format!("{}.Echo", base),
+                        1 => format!("{}.Nope", base),
+                        2 => base.clone(),
+                        3 => format!("{}x.Echo", base),
+                        _ => format!("{}.Fail", base),
+                    };
+                    s.extend(crate::alphabet::frame(&crate::alphabet::request(
+                        &m,
+                        Some(json!({"token": format!("c{}-{}", c, i)})),
+                        crate::alphabet::Flags::NONE,
+                    )));
+                }
+                s.extend(crate::alphabet::frame(&crate::alphabet::request(
+                    "org.varlink.service.GetInfo",
+                    None,
+                    crate::alphabet::Flags::NONE,
+                )));
+                steps.push(Step::Connect(c));
+                steps.push(Step::Send(c, s.len()));
+                conns.push(LConn::healthy(&s));
+            }
+            let mut lc = LCase::single(&cfg, conns[0].clone(), steps, SchedCfg::random(&mut rng, 1));
+            lc.conns = conns;
+            Case::L(lc)
+        }),
+    }]
+}
+
+pub fn c06_spaces(tier: Tier) -> Vec<Space> {
+    // a faulty connection beside a healthy one, and a healthy one afterwards
+    let cfg = SvcCfg::basic();
+    let n = if tier == Tier::Quick { 2_500 } else { 80_000 };
+    let victims = crate::props::c06_victims_pub(&cfg);
+    vec![Space {
+        name: "L.malformed.neighbours",
+        size: n,
+        exhaustive: false,
+        gen: Box::new(move |_idx, seed| {
+            let mut rng = Rng::new(seed);
+            let mut victim = rng.pick(&victims).clone();
+            // one mutation of the victim
+            let pos = rng.usize(victim.len() - 1);
+            match rng.below(8) {
+                0 => victim[pos] ^= 1 << rng.below(7),
+                1 => {
+                    victim.remove(pos);
+                }
+                2 => victim.insert(pos, 0),
+                3 => victim.insert(pos, 0xFF),
+                4 => victim[pos] = b'"',
+                5 => victim.truncate(pos + 1),
+                6 => {
+                    victim = format!("{}\0", crate::props::nested(*rng.pick(&[10usize, 127, 128, 129, 300, 2000]), rng.chance(1, 2))).into_bytes();
+                }
+                _ => {
+                    let len = rng.range(1, 60) as usize;
+                    victim = (0..len).map(|_| rng.below(256) as u8).collect();
+                    victim.push(0);
+                }
+            }
+            let mut bad = token_stream(&cfg, &[crate::alphabet::Kind(crate::alphabet::Base::Echo, crate::alphabet::Flags::NONE)], 0);
+            bad.extend_from_slice(&victim);
+            bad.extend(token_stream(&cfg, &[crate::alphabet::Kind(crate::alphabet::Base::GetInfo, crate::alphabet::Flags::NONE)], 0));
+            let red = crate::alphabet::reduced();
+            let k1: Vec<_> = (0..rng.range(1, 4)).map(|_| *rng.pick(&red)).collect();
+            let k2: Vec<_> = (0..rng.range(1, 3)).map(|_| *rng.pick(&red)).collect();
+            let good1 = token_stream(&cfg, &k1, 1);
+            let good2 = token_stream(&cfg, &k2, 2);
+            let mut steps = vec![Step::Connect(0), Step::Connect(1)];
+            // interleave the two senders
+            let cut_b = rng.range(1, bad.len() as u64) as usize;
+            let cut_g = rng.range(1, good1.len() as u64) as usize;
+            let mut order = vec![Step::Send(0, cut_b), Step::Send(1, cut_g), Step::Send(0, bad.len()), Step::Send(1, good1.len())];
+            if rng.chance(1, 2) {
+                order.swap(0, 1);
+            }
+            if rng.chance(1, 2) {
+                order.insert(2, Step::Quiesce);
+            }
+            steps.extend(order);
+            steps.push(Step::Quiesce);
+            // the later connection
+            steps.push(Step::Connect(2));
+            steps.push(Step::Send(2, good2.len()));
+            let mut lc = LCase::single(&cfg, LConn::healthy(&bad), steps, SchedCfg::random(&mut rng, 1));
+            lc.conns = vec![LConn::healthy(&bad), LConn::healthy(&good1), LConn::healthy(&good2)];
+            lc.initial = rng.range(1, 2) as usize;
+            Case::L(lc)
+        }),
+    }]
+}
+
+fn random_conn(rng: &mut Rng, cfg: &SvcCfg, idx: usize, full: &[crate::alphabet::Kind]) -> LConn {
+    let len = rng.range(1, 8) as usize;
+    let kinds: Vec<_> = (0..len).map(|_| *rng.pick(full)).collect();
+    let s = token_stream(cfg, &kinds, idx);
+    let mut c = LConn::healthy(&s);
+    if rng.chance(1, 3) {
+        c.srv_read_plan = (0..rng.range(1, 20)).map(|_| rng.range(1, 80) as u16).collect();
+    }
+    if rng.chance(1, 4) {
+        c.srv_write_plan = (0..rng.range(1, 20)).map(|_| rng.range(1, 80) as u16).collect();
+    }
+    c
+}
+
+pub fn c13_plan(tier: Tier) -> Plan {
+    let cfg = SvcCfg::basic();
+    let mut spaces = Vec::new();
+    let nmax: u64 = if tier == Tier::Quick { 8 } else { 64 };
+    let n = if tier == Tier::Quick { 6_000 } else { 150_000 };
+    {
+        let cfg = cfg.clone();
+        spaces.push(Space {
+            name: "L.multi.random",
+            size: n,
+            exhaustive: false,
+            gen: Box::new(move |_idx, seed| {
+                let mut rng = Rng::new(seed);
+                let full = crate::alphabet::full();
+                let nconn = if rng.chance(1, 12) { rng.range(2, nmax) } else { rng.range(2, 8.min(nmax)) } as usize;
+                let fault_cfg = rng.chance(1, 2);
+                let mut conns = Vec::new();
+                for i in 0..nconn {
+                    let mut c = random_conn(&mut rng, &cfg, i, &full);
+                    if fault_cfg {
+                        match rng.below(10) {
+                            0 => {
+                                // says nothing
+                                c.stream = Bytes::from(&[][..]);
+                            }
+                            1 => {
+                                c.peer = Peer::StopReading;
+                                c.s2c_cap = rng.range(1, 300) as usize;
+                            }
+                            2 => c.peer = Peer::Faulty,
+                            3 => {
+                                // garbage in the middle
+                                let mut s = c.stream.to_vec();
+                                let p = rng.usize(s.len());
+                                s[p] = b'}';
+                                c.stream = Bytes::from(&s);
+                            }
+                            _ => {}
+                        }
+                    }
+                    conns.push(c);
+                }
+                // a global interleaving of per-connection send segments
+                let mut steps: Vec<Step> = Vec::new();
+                let mut remaining: Vec<usize> = conns.iter().map(|c| c.stream.to_vec().len()).collect();
+                let mut connected = vec![false; nconn];
+                let mut open: Vec<usize> = (0..nconn).collect();
+                while !open.is_empty() {
+                    let k = rng.usize(open.len());
+                    let i = open[k];
+                    if !connected[i] {
+                        connected[i] = true;
+                        steps.push(Step::Connect(i));
+                        if remaining[i] == 0 {
+                            open.remove(k);
+                        }
+                        continue;
+                    }
+                    let seg = if rng.chance(1, 3) { remaining[i] } else { rng.range(1, remaining[i] as u64) as usize };
+                    steps.push(Step::Send(i, seg));
+                    remaining[i] -= seg;
+                    if conns[i].peer == Peer::Faulty && (remaining[i] == 0 || rng.chance(1, 3)) {
+                        steps.push(if rng.chance(1, 2) { Step::Reset(i) } else { Step::Close(i) });
+                        remaining[i] = 0;
+                    }
+                    if remaining[i] == 0 {
+                        open.remove(k);
+                        if conns[i].peer == Peer::Healthy && rng.chance(1, 3) {
+                            steps.push(Step::HalfClose(i));
+                        }
+                    }
+                    match rng.below(6) {
+                        0 => steps.push(Step::Quiesce),
+                        1 => steps.push(Step::Yield(rng.range(1, 4) as u8)),
+                        _ => {}
+                    }
+                }
+                let mut lc = LCase::single(&cfg, conns[0].clone(), steps, SchedCfg::random(&mut rng, 1));
+                lc.conns = conns;
+                lc.initial = rng.range(1, 3) as usize;
+                // the property quantifies over connection counts below the worker limit
+                lc.max = nconn + 1 + rng.usize(4);
+                Case::L(lc)
+            }),
+        });
+    }
+    Plan {
+        spaces,
+        rule: "L: 2..8 (quick) / 2..64 (thorough) simultaneous raw clients against the real listen loop, max_worker_threads above the connection count; each client pipelines a random request sequence over the full alphabet whose tokens embed its connection number; a seeded global interleaving of per-connection send segments, quiescence waits and yields; random server-side short reads / short writes; in the fault-injecting half of the runs some peers say nothing, never read (tiny window: server writes block), send garbage, or reset / close in mid-stream. Oracles: per connection the reply stream equals the reference model of its own requests (strict for healthy peers, prefix-consistent for faulted ones), no foreign token ever appears, and at quiescence *while misbehaving peers are still stalled* every healthy connection has its complete replies. Distinct = (case, hash of the context-switch sequence); non-trivial = at least 6 context switches.".into(),
+        level: "exploration",
+        real: {
+            let mut r = REAL_L.to_vec();
+            r.push("generated proxies for org.example.ping / org.example.more, hand-written scripted interfaces");
+            r
+        },
+        stub: STUB_L.to_vec(),
+        assumptions: vec![
+            "serde_json is the trusted JSON syntax oracle of the reference model".into(),
+            "shuttle's model of std threads / mpsc / Mutex / RwLock is faithful".into(),
+            "TCP vs unix sockets are not distinguished: both are reliable ordered byte streams behind the Stream trait".into(),
+        ],
+    }
+}
+
+pub fn c15_plan(tier: Tier) -> Plan {
+    let cfg = SvcCfg::basic();
+    let mut spaces = Vec::new();
+    // systematic histories
+    {
+        let cfg = cfg.clone();
+        let hist = 9u64;
+        let idle = [0u64, 1, 2];
+        let stopm = 5u64; // absent, present-never-set, set before, set during, set after
+        let pools = [(1usize, 1usize), (1, 4), (2, 2), (3, 4)];
+        let seeds: u64 = if tier == Tier::Quick { 3 } else { 40 };
+        let size = hist * idle.len() as u64 * stopm * pools.len() as u64 * 2 * seeds;
+        spaces.push(Space {
+            name: "L.life.systematic",
+            size,
+            exhaustive: false,
+            gen: Box::new(move |idx, seed| {
+                let mut rng = Rng::new(seed);
+                let mut i = idx / seeds;
+                let h = i % hist;
+                i /= hist;
+                let it = idle[(i % 3) as usize];
+                i /= 3;
+                let sm = i % stopm;
+                i /= stopm;
+                let (initial, max) = pools[(i % 4) as usize];
+                i /= 4;
+                let slow = if i % 2 == 1 { 30 } else { 0 };
+                Case::L(life_case(&cfg, &mut rng, h, it, sm, initial, max, slow, false))
+            }),
+        });
+    }
+    // the same with signals interrupting select (fault-injecting configuration)
+    {
+        let cfg = cfg.clone();
+        let n = if tier == Tier::Quick { 1_500 } else { 50_000 };
+        spaces.push(Space {
+            name: "L.life.signals",
+            size: n,
+            exhaustive: false,
+            gen: Box::new(move |_idx, seed| {
+                let mut rng = Rng::new(seed);
+                let h = rng.below(9);
+                let it = rng.below(3);
+                let sm = rng.below(5);
+                let (initial, max) = *rng.pick(&[(1usize, 1usize), (1, 4), (2, 2), (3, 4)]);
+                let slow = if rng.chance(1, 3) { 30 } else { 0 };
+                Case::L(life_case(&cfg, &mut rng, h, it, sm, initial, max, slow, true))
+            }),
+        });
+    }
+    Plan {
+        spaces,
+        rule: "L with the simulated clock: idle_timeout {0,1,2} s x stop flag {absent, present but never set, set before / during / after the connections} x pools {(1,1),(1,4),(2,2),(3,4)} x fast-CPU / slow-thread clock x connection histories {none; one short; arrival just before the idle deadline; long-lived across several deadlines; closing exactly at the deadline; streaming reply blocked on a full window when the flag is set; arrivals every 50 ms for 3 s after the flag; burst of connections then silence; client vanishing mid-message} x seeded schedules; a second batch injects signals into select (EINTR) at random points. Oracles on simulated milliseconds: Timeout only with idle_timeout>0 and >= idle_timeout since the last accept, never while a connection is in service (fast-CPU mode), Ok only and always once the flag is set, no accept starting > 1 s after the flag takes a connection, listen returns only after every accepted connection was closed by its worker with complete replies, promptly (fast-CPU mode), and it does return.".into(),
+        level: "exploration",
+        real: REAL_L.to_vec(),
+        stub: {
+            let mut s = STUB_L.to_vec();
+            s.push("socket-path removal (Listener::drop) is NOT exercised by the simulated listener");
+            s
+        },
+        assumptions: vec![
+            "'shortly after the flag is set' is read as: no accept() that starts more than 1 s (ten poll quanta) after the flag takes a connection".into(),
+            "in slow-thread mode only the clauses that cannot be confused by a lagging thread are checked".into(),
+        ],
+    }
+}
+
+#[allow(clippy::too_many_arguments)]
+fn life_case(cfg: &SvcCfg, rng: &mut Rng, hist: u64, idle: u64, stopm: u64, initial: usize, max: usize, slow: u8, signals: bool) -> LCase {
+    use crate::alphabet::{Base, Flags, Kind};
+    let stop_flag = stopm > 0;
+    let echo = |c: usize| token_stream(cfg, &[Kind(Base::Echo, Flags::NONE), Kind(Base::GetInfo, Flags::NONE)], c);
+    let big = |c: usize| {
+        token_stream(
+            cfg,
+            &[Kind(Base::MoreTestMore, Flags::MORE), Kind(Base::DescRegistered, Flags::NONE), Kind(Base::MoreTestMore, Flags::MORE)],
+            c,
+        )
+    };
+    let mut conns: Vec<LConn> = Vec::new();
+    let mut steps: Vec<Step> = Vec::new();
+    if stopm == 2 {
+        steps.push(Step::SetStop);
+    }
+    let idle_ms = idle.max(1) * 1000;
+    match hist {
+        0 => {
+            // nobody comes
+            steps.push(Step::Sleep(rng.range(100, 2500)));
+        }
+        1 => {
+            conns.push(LConn::healthy(&echo(0)));
+            steps.extend([Step::Sleep(rng.range(0, 400)), Step::Connect(0), Step::Send(0, 10_000), Step::Quiesce, Step::HalfClose(0)]);
+        }
+        2 => {
+            // arrival just before the idle deadline
+            conns.push(LConn::healthy(&echo(0)));
+            steps.extend([Step::Sleep(idle_ms - rng.range(1, 120)), Step::Connect(0), Step::Send(0, 10_000), Step::Sleep(rng.range(1, 300)), Step::HalfClose(0)]);
+        }
+        3 => {
+            // long-lived across several deadlines
+            conns.push(LConn::healthy(&echo(0)));
+            steps.extend([Step::Connect(0), Step::Send(0, 40), Step::Sleep(idle_ms * 2 + rng.range(0, 700)), Step::Send(0, 10_000), Step::Sleep(rng.range(0, 200)), Step::HalfClose(0)]);
+        }
+        4 => {
+            // closing exactly at the deadline
+            conns.push(LConn::healthy(&echo(0)));
+            steps.extend([Step::Connect(0), Step::Send(0, 10_000), Step::Sleep(idle_ms), Step::HalfClose(0)]);
+        }
+        5 => {
+            // streaming reply blocked on a full window when the flag is set
+            let mut c = LConn::healthy(&big(0));
+            c.peer = Peer::StopReading;
+            c.s2c_cap = rng.range(16, 200) as usize;
+            conns.push(c);
+            steps.extend([Step::Connect(0), Step::Send(0, 10_000), Step::Quiesce]);
+            if stopm == 3 {
+                steps.push(Step::SetStop);
+            }
+            steps.push(Step::Sleep(rng.range(50, 1500)));
+        }
+        6 => {
+            // arrivals every 50 ms for 3 s
+            let k = 60usize;
+            for i in 0..k {
+                conns.push(LConn::healthy(&echo(i)));
+            }
+            for i in 0..k {
+                steps.extend([Step::Connect(i), Step::Send(i, 10_000), Step::Sleep(50), Step::HalfClose(i)]);
+                if i == 3 && stopm == 3 {
+                    steps.push(Step::SetStop);
+                }
+            }
+        }
+        7 => {
+            // burst then silence
+            let k = rng.range(2, 5) as usize;
+            for i in 0..k {
+                conns.push(LConn::healthy(&echo(i)));
+                steps.push(Step::Connect(i));
+            }
+            for i in 0..k {
+                steps.push(Step::Send(i, 10_000));
+            }
+            steps.push(Step::Sleep(rng.range(0, 600)));
+            for i in 0..k {
+                steps.push(Step::HalfClose(i));
+            }
+        }
+        _ => {
+            // a client that vanishes mid-message, next to a healthy one
+            let mut c = LConn::healthy(&echo(0));
+            c.peer = Peer::Faulty;
+            conns.push(c);
+            conns.push(LConn::healthy(&echo(1)));
+            steps.extend([Step::Connect(0), Step::Send(0, 30), Step::Connect(1), Step::Send(1, 10_000), Step::Sleep(rng.range(0, 300)), Step::Close(0), Step::HalfClose(1)]);
+        }
+    }
+    if stopm == 3 && hist != 5 && hist != 6 {
+        // during: somewhere in the middle of the script
+        let p = rng.range(1, steps.len() as u64) as usize;
+        steps.insert(p, Step::SetStop);
+    }
+    if stopm == 4 {
+        steps.push(Step::Sleep(rng.range(0, 500)));
+        steps.push(Step::SetStop);
+    }
+    if signals {
+        for _ in 0..rng.range(1, 3) {
+            let p = rng.range(0, steps.len() as u64) as usize;
+            steps.insert(p, Step::Signal);
+            if rng.chance(1, 2) {
+                // make sure a select is blocked when the signal arrives
+                steps.insert(p, Step::Quiesce);
+            }
+        }
+    }
+    LCase {
+        cfg: cfg.clone(),
+        initial,
+        max,
+        idle_timeout: idle,
+        stop_flag,
+        conns,
+        steps,
+        sched: SchedCfg::random(rng, 1),
+        slow_clock: slow,
+    }
+}
